@@ -1049,12 +1049,15 @@ func fillSig(v *view, s ndn.Signature) {
 
 // decoded is what one decoding call of the API returned.
 type decoded struct {
-	v        *view
-	covered  []byte
-	ncov     int
-	sig      ndn.Signature
-	err      error // decode error or recovered panic
-	panicked bool
+	v       *view
+	covered []byte
+	// coveredWire: the signed ranges exactly as the decoder returned them (views into the
+	// bytes it was given), not copied
+	coveredWire enc.Wire
+	ncov        int
+	sig         ndn.Signature
+	err         error // decode error or recovered panic
+	panicked    bool
 }
 
 // decode runs one of the API decoders (how = "ReadInterest/ReadData" | "ReadPacket").
@@ -1105,6 +1108,7 @@ func decodeOpt(kind, how string, r enc.ParseReader, withView bool) (d decoded) {
 	}
 	d.ncov = len(cov)
 	d.covered = append([]byte{}, cov.Join()...)
+	d.coveredWire = cov
 	return d
 }
 
@@ -1318,7 +1322,7 @@ func genSigner(t *rapid.T, kind string) Signer {
 		case 1:
 			s.Key = Blob{N: rapid.SampledFrom([]int{63, 64, 65, 252, 253, 300}).Draw(t, "keyLen"), S: rapid.Byte().Draw(t, "keySeed")}
 		default:
-			s.Key = Blob{N: rapid.IntRange(1, 40).Draw(t, "keyLen"), S: rapid.Byte().Draw(t, "keySeed")}
+			s.Key = Blob{N: rapid.SampledFrom([]int{1, 2, 16, 31, 32, 33, 40, 63, 64, 65, 128, 200}).Draw(t, "keyLen"), S: rapid.Byte().Draw(t, "keySeed")}
 		}
 	}
 	switch s.Kind {
